@@ -436,7 +436,7 @@ class Trailer(_HopByHopElement, HeaderElement):
 
 	is_response_header = True
 	is_request_header = True
-	forbidden_headers = ('Transfer-Encoding', 'Content-Length', 'Trailer')
+	forbidden_headers = ('Transfer-Encoding', 'Content-Length', 'Trailer', 'Host')
 
 	def sanitize(self) -> None:
 		if self.value.title() in self.forbidden_headers:
